@@ -67,7 +67,7 @@ def run(chk, scratch):
     thorough = chk.tier == "thorough"
     rng = random.Random(chk.seed)
     chk.rule = ("crash point = a numbered file-system mutation (open for writing/appending, gzip open for writing, remove) under the output "
-                "directory of a -t 1 run, after .params was written; the run is killed (os._exit) immediately before it and continued with --resume; "
+                "directory of a -t 1 run, after .params was written; the run is killed (os._exit) immediately before it and continued with --resume (every second point with --threads 3); "
                 "quick: every distinct call site (function, operation, file kind) of 2 configurations once + random fill; thorough: every crash "
                 "point of every configuration + multi-process kills. non-trivial = distinct call sites crashed at")
     conf_names = list(CONFIGS) if thorough else ["multi-chrom-groups-exons", "annotation-free", "force-over-previous-run"]
@@ -153,7 +153,8 @@ def run(chk, scratch):
                                      cfg={"crash_root": out, "crash_at": n}, events=os.path.join(d, "ev%d" % n))
             r2 = None
             if r1["rc"] == 137:
-                r2 = runner.run_isoquant(["--resume", "-o", out], home, timeout=300)
+                # every second crash point is resumed with another thread count (the resume parser accepts --threads)
+                r2 = runner.run_isoquant(["--resume", "-o", out] + (["--threads", "3"] if n % 2 else []), home, timeout=300)
             return n, out, r1, r2
         for n, out, r1, r2 in runner.parallel(one, chosen, workers=12):
             site = site_by_n[n]
@@ -165,7 +166,7 @@ def run(chk, scratch):
             executed += 1
             sites_seen.add(site)
             chk.nontrivial.add(site)
-            wit = {"config": cname, "crash_point": n, "site": site, "options": extra}
+            wit = {"config": cname, "crash_point": n, "site": site, "options": extra, "resumed_with": "--threads 3" if n % 2 else "the saved options"}
             if r2["rc"] is None:
                 chk.inconclusive.append("%s: watchdog expired while resuming after crash point %d" % (cname, n))
             elif r2["rc"] != 0:
@@ -215,7 +216,7 @@ def run(chk, scratch):
                                          events=os.path.join(d, "evmp%d" % k), new_session=True)
                 r2 = None
                 if r1["rc"] is not None and r1["rc"] != 0:
-                    r2 = runner.run_isoquant(["--resume", "-o", out], home, timeout=300)
+                    r2 = runner.run_isoquant(["--resume", "-o", out] + (["--threads", "1"] if k % 2 else []), home, timeout=300)
                 return k, out, r1, r2
             for k, out, r1, r2 in runner.parallel(one_mp, ks, workers=4):
                 if r1["rc"] == 0:
